@@ -48,6 +48,8 @@
   | apply f a… s       | s list or vector                               | what f returns                          |
   | update m k f       | map + string, vector + index, nil (↦ nil)      | map / vector                            |
 -/
+import LispModel.Proofs.IntArithLaws
+import LispModel.Proofs.TyCtorLaws
 import LispModel.Core
 import LispModel.Eval
 import LispModel.Proofs.CoreLaws
@@ -619,5 +621,51 @@ theorem contains_present_nil (m : List (String × Val)) (k : String) :
 theorem concat_one_vector_is_list (xs : List Val) (p : Option Pos) :
     callOk "concat" [.vec xs p] (.list xs none) :=
   Proofs.SeedLaws.C13.concat_one_vector_is_list xs p
+
+
+/-! ## the constructors and predicates of types/types.go (model LispModel/TyCtor.lean, engine tyctor) -/
+
+open LispModel.TyCtor in
+/-- `NewHashMap` (behind `hash-map` and the `{…}` reader) succeeds exactly on a sequence of even length whose even
+    positions are strings / keywords — otherwise an error, never a panic -/
+theorem new_hash_map_domain (v : TVal) :
+    ((∃ r, newHashMap v = .ok r) ↔
+      ∃ xs, seqElems v = some xs ∧ xs.length % 2 = 0 ∧ ∀ i, 2 * i < xs.length → ∃ s, xs[2 * i]? = some (.str s)) ∧
+    (newHashMap v).isPanic = false := ⟨newHashMap_ok_iff v, newHashMap_never_panics v⟩
+
+open LispModel.TyCtor in
+/-- `NewSet` succeeds exactly on nil and on sequences of strings / keywords -/
+theorem new_set_domain (v : TVal) :
+    (∃ r, newSet v = .ok r) ↔ v = .nil ∨ ∃ xs, seqElems v = some xs ∧ ∀ x ∈ xs, ∃ s, x = .str s := newSet_ok_iff v
+
+open LispModel.TyCtor in
+/-- `sequential?` is exactly "list or vector" on lisp values -/
+theorem sequential_is_list_or_vector (v : TVal) (h : isLispValue v = true) :
+    sequentialQ v = .ok true ↔ isList v = true ∨ isVec v = true := sequential_iff_lisp v h
+
+open LispModel.TyCtor in
+/-- keywords are not strings for `string?` and are for `keyword?` -/
+theorem keyword_and_string_predicates (v : TVal) :
+    keywordQ v = .ok (match v with | .str s => Val.isKwStr s | _ => false) ∧
+    stringQ v = .ok (match v with | .str s => !Val.isKwStr s | _ => false) := ⟨keywordQ_spec v, stringQ_spec v⟩
+
+
+/-! ## Go's 64-bit integers under the arithmetic builtins (model LispModel/IntArith.lean, engine arith)
+
+`Core.body` computes `+ - * /` on unbounded integers. This is the theorem that says where that IS the code's answer. -/
+
+open LispModel.IntArith in
+/-- **validity domain of the unbounded-integer model**: whenever the true result is a 64-bit integer (and, for `/`, the
+    pair is not (MinInt64, -1)), what `Core.body` computes is exactly what Go computes; comparisons always -/
+theorem core_arithmetic_is_go_arithmetic_in_range {op : String} {a b : Int} {o : Obs} (ha : inRange a)
+    (ho : goOp op a b = some o)
+    (hdom : (op = "+" → inRange (a + b)) ∧ (op = "-" → inRange (a - b)) ∧ (op = "*" → inRange (a * b)) ∧
+            (op = "/" → ¬ (a = minInt64 ∧ b = -1))) :
+    Core.body op [.int a, .int b] = o.toBRes := core_eq_goOp ha ho hdom
+
+open LispModel.IntArith in
+/-- outside that domain Go's answer differs from the mathematical one by a non-zero multiple of 2^64 (it wraps) -/
+theorem go_addition_wraps_outside_range {a b : Int} (h : ¬ inRange (a + b)) :
+    goAdd a b ≠ a + b ∧ ∃ k : Int, k ≠ 0 ∧ a + b = goAdd a b + 18446744073709551616 * k := goAdd_ne_of_overflow h
 
 end LispModel.Props.C13
